@@ -51,7 +51,8 @@ def func_enc(j, nout):
 
 
 def out_names(nout):
-    return ["0"] if nout == 1 else [f"o{o}" for o in range(nout)]
+    # declared (= yield) order is deliberately NOT the lexicographic order of the names
+    return ["0"] if nout == 1 else [f"o{nout - 1 - o}" for o in range(nout)]
 
 
 def pair_options(nout_src):
@@ -103,7 +104,9 @@ def build_job(ch, n, multi, gpu_possible, fixed_edges=None, with_ext=True, ext_s
         tid = f"t{j}"
         d = TaskDefinition(func=func_enc(j, t["nout"]), environment=[], entrypoint="", input_schema={},
                            output_schema={o: "Any" for o in out_names(t["nout"])}, needs_gpu=t["needs_gpu"])
-        tasks[tid] = TaskInstance(definition=d, static_input_kw={"sk": j}, static_input_ps={str(t["static_pos"]): f"s{j}"})
+        # a keyword fed by an edge may also carry a static default (as TaskBuilder.from_callable records them): the edge wins
+        defaults = {kw: "default" for (_, _, ps, kw) in t["ins"] if kw is not None}
+        tasks[tid] = TaskInstance(definition=d, static_input_kw={"sk": j, **defaults}, static_input_ps={str(t["static_pos"]): f"s{j}"})
         for (i, o, ps, kw) in t["ins"]:
             edges.append(Task2TaskEdge(source=DatasetId(f"t{i}", o), sink_task=tid, sink_input_kw=kw, sink_input_ps=ps))
     job = JobInstance(tasks=tasks, edges=edges, ext_outputs=[DatasetId(f"t{j}", o) for j, o in spec["ext"]])
@@ -147,7 +150,7 @@ class PlanCounter:
 
 HOST_SHAPES = {
     "1x1": [[0]], "1x2": [[0, 0]], "2x1": [[0], [0]], "2x2": [[0, 0], [0, 0]], "3x1": [[0], [0], [0]], "3x2": [[0, 0]] * 3,
-    "2x1g": [[1], [0]], "1x2g": [[1, 0]], "2x2g": [[1, 0], [0, 0]],
+    "2x1g": [[1], [0]], "1x2g": [[1, 0]], "2x2g": [[1, 0], [0, 0]], "1x1g": [[1]],
 }
 
 
@@ -219,12 +222,13 @@ class Ctrl(Harness):
     def shards(self, tier):
         out = []
         if tier == "quick":
-            for hosts in ["1x1", "2x1", "1x2", "2x2", "3x1", "2x1g"]:
+            for hosts in ["1x1", "2x1", "1x2", "2x2", "3x1", "2x1g", "1x1g"]:
                 for n in (0, 1, 2):
                     for multi in itertools.product([0, 1], repeat=n):
                         K = 4 if not (n == 2 and (any(multi) or hosts == "2x1g")) else (3 if hosts != "2x1g" else 2)
                         out.append({"n": n, "multi": list(multi), "hosts": hosts, "K": K})
-            for hosts, multi, K in [("2x1", [0, 0, 0], 4), ("1x2", [0, 0, 0], 3), ("2x2", [0, 0, 0], 3), ("2x1g", [0, 0, 0], 2), ("2x1", [1, 0, 0], 3)]:
+            for hosts, multi, K in [("2x1", [0, 0, 0], 4), ("1x2", [0, 0, 0], 3), ("2x2", [0, 0, 0], 3), ("2x1g", [0, 0, 0], 2), ("1x1g", [0, 0, 0], 1), ("1x1", [0, 0, 0], 2),
+                                    ("2x1", [1, 0, 0], 3)]:
                 for f01 in range(len(pair_options(2 if multi[0] else 1))):
                     out.append({"n": 3, "multi": multi, "hosts": hosts, "K": K, "fixed": {"0-1": f01}})
         out += family_shards(tier)
